@@ -49,6 +49,8 @@ def coupling(kind):
         return 0.5 * M.SX
     if kind == "d3block":        # eigenvalues (1, 1, -1)/2 .. repeated, non-diagonal
         return 0.5 * np.array([[0, 1, 0], [1, 0, 0], [0, 0, 1]], dtype=complex)
+    if kind == "d2complex":        # complex Hermitian: complex eigenvectors
+        return 0.5 * M.SY + 0.2 * M.SX
     if kind == "d3generic":
         v = M.generic_unitary(3, 2)
         o = (v * np.array([0.8, 0.8, -0.8])) @ v.conj().T
@@ -289,6 +291,36 @@ def pulse_system(d, start, late=False):
     return oq.TimeDependentSystem(h, gammas=[lambda t: 0.8 if t - start >= t_g else 0.0], lindblad_operators=[lambda t: lop])
 
 
+def filebacked_case(args):
+    """PT-TEMPO writing straight into a (temporary) HDF5 file vs TEMPO"""
+    cp, sysk, unique = args
+    o = coupling(cp)
+    d = o.shape[0]
+    n, eps = 4, 1e-8
+    bath = oq.Bath(o, C.lib_correlations(SDS["ohmic-exp-T0.5"]))
+    sysm = system(sysk, d)
+    rho0 = initial_state(d)
+    prm = C.make_params(DT, eps)
+    pt = None
+    try:
+        _, ts = C.run_tempo(sysm, bath, prm, rho0, 0.0, n, unique)
+        pt = oq.pt_tempo_compute(bath, 0.0, (n + 0.25) * DT, prm, unique=unique, process_tensor_file=True, progress_type="silent")
+        _, ps = C.run_pt_dynamics(sysm, pt, rho0, 0.0)
+    except Exception as ex:  # noqa
+        return {"bad": [(f"file-backed|{cp}|exception:{type(ex).__name__}", str(ex)[:160])]}
+    finally:
+        if pt is not None:
+            try:
+                pt.remove()
+            except Exception:  # noqa
+                pass
+    dev = float(np.abs(ts - ps).max()) if ts.shape == ps.shape else 9.9
+    bad = []
+    if dev > tolerance(eps, n):
+        bad.append((f"file-backed|{cp}|tempo-vs-pttempo-differ", f"{cp} {sysk} unique={unique}: file-backed PT-TEMPO and TEMPO differ by {dev:.2e}"))
+    return {"bad": bad, "dev": dev}
+
+
 def pulse_case(args):
     cp, start, k, eps = args[:4]
     late = bool(args[4]) if len(args) > 4 else False
@@ -329,7 +361,11 @@ def run(tier, seed):
     for j, r in zip(pj, pres):
         for cls, what in r["bad"]:
             rep.add(Violation(cls, what, {"family": "pulse", "args": list(j)}))
-    extra_cov = {"memory_lattice": {"dt": LATTICE_DTS, "steps": [1, 6 if tier == "quick" else 12], "given_as": ["dkmax", "tcut"],
+    fj = [(cp, sk, u) for cp in COUPLINGS + ["d2complex"] for sk in ("H", "H(t)+L(t)") for u in (False, True)]
+    for j, r in zip(fj, pmap(filebacked_case, fj, seed=seed)):
+        for cls, what in r["bad"]:
+            rep.add(Violation(cls, what, {"family": "filebacked", "args": list(j)}))
+    extra_cov = {"file_backed_cases": len(fj), "memory_lattice": {"dt": LATTICE_DTS, "steps": [1, 6 if tier == "quick" else 12], "given_as": ["dkmax", "tcut"],
                                     "cases": len(lj), "min_memory_cutoff_effect": min(r["eff"] for r in lres),
                                     "max_dev": max(r.get("dev", 0.0) for r in lres if not r["bad"]) if any(not r["bad"] for r in lres) else None},
                  "pulse_family": {"cases": len(pj), "min_pulse_effect": min(r["eff"] for r in pres),
@@ -428,9 +464,9 @@ def run(tier, seed):
 
 
 def replay(rp):
-    if rp.get("family") in ("lattice", "pulse"):
+    if rp.get("family") in ("lattice", "pulse", "filebacked"):
         a = rp["args"]
-        r = lattice_case(tuple(a)) if rp["family"] == "lattice" else pulse_case(tuple(a))
+        r = {"lattice": lattice_case, "pulse": pulse_case, "filebacked": filebacked_case}[rp["family"]](tuple(a))
         return {"obs": [b[0] for b in r["bad"]], "violation": r["bad"][0][0] if r["bad"] else None}
     c = dict(rp)
     c["mem"] = list(c["mem"])
